@@ -152,7 +152,7 @@ extern ssize_t mpt_encode_cobs(MPT_STRUCT(encode_state) *info, const struct iove
 			if (++code == MPT_COBS_MAXLEN) {
 				/* unable to save continuation state */
 				if (!left) {
-					--code; --dst;
+					--code; --dst; ++left;
 					dst[-code] = code;
 					++len; --src;
 					break;
